@@ -68,7 +68,7 @@ theorem adjust_spec (S : XState) (addr n : Nat) (hJ : JX S) : JX (adjust S addr 
   unfold adjust
   dsimp only
   generalize renorm S n = S1 at r1 r2
-  generalize (decide (S1.dict.size < 4) && decide ((if S.dict.size ≠ 0 then some (S.dictAddr + S.dict.size) else none) ≠ some addr) && decide (n > 0)) = tiny
+  generalize (decide (S1.dict.size < 4) && decide ((if S.dict.size ≠ 0 then some (S.dictAddr + S.dict.size) else none) ≠ some addr) && decide (n > 0) && S1.dctx.isNone) = tiny
   have h2 : JX (if tiny = true then { S1 with dict := #[], dictAddr := addr } else S1) ∧
       IsTail (if tiny = true then { S1 with dict := #[], dictAddr := addr } else S1).dict.toList S.dict.toList := by
     cases tiny with
@@ -88,6 +88,44 @@ theorem adjust_spec (S : XState) (addr n : Nat) (hJ : JX S) : JX (adjust S addr 
       have := j2.ds
       omega
     · exact ⟨j2, t2⟩
+
+theorem renorm_dctx (S : XState) (n : Nat) : (renorm S n).dctx = S.dctx := by
+  unfold renorm; split <;> rfl
+
+theorem renorm_dict_size (S : XState) (n : Nat) : (renorm S n).dict.size ≤ S.dict.size := by
+  unfold renorm; split
+  · exact lastN_size _ _
+  · exact Nat.le_refl _
+
+theorem adjust_dctx (S : XState) (addr n : Nat) : (adjust S addr n).1.dctx = S.dctx := by
+  unfold adjust
+  dsimp only
+  have h1 := renorm_dctx S n
+  generalize renorm S n = S1 at h1
+  generalize (decide (S1.dict.size < 4) && decide ((if S.dict.size ≠ 0 then some (S.dictAddr + S.dict.size) else none) ≠ some addr) && decide (n > 0) && S1.dctx.isNone) = tiny
+  have h2 : (if tiny = true then { S1 with dict := #[], dictAddr := addr } else S1).dctx = S.dctx := by
+    cases tiny with
+    | true => exact h1
+    | false => exact h1
+  generalize (if tiny = true then { S1 with dict := #[], dictAddr := addr } else S1) = S2 at h2
+  generalize (if tiny = true then some addr else if S.dict.size ≠ 0 then some (S.dictAddr + S.dict.size) else none) = dictEnd
+  cases dictEnd with
+  | none => exact h2
+  | some e => dsimp only; split <;> exact h2
+
+/-- with a dictionary stream attached and no dictionary of its own, the stream never takes the prefix mode and stays without a dictionary of its own -/
+theorem adjust_attached (S : XState) (addr n : Nat) (D : DCtx) (hD : S.dctx = some D) (h0 : S.dict.size = 0) :
+    (adjust S addr n).2 = false ∧ (adjust S addr n).1.dict.size = 0 := by
+  unfold adjust
+  dsimp only
+  have h1 := renorm_dctx S n
+  have h1s := renorm_dict_size S n
+  generalize renorm S n = S1 at h1 h1s
+  have hnone : S1.dctx.isNone = false := by rw [h1, hD]; rfl
+  have hde : (if S.dict.size ≠ 0 then some (S.dictAddr + S.dict.size) else none : Option Nat) = none := by rw [if_neg (by omega)]
+  rw [hde, hnone]
+  simp only [Bool.and_false, Bool.false_eq_true, ↓reduceIte]
+  exact ⟨by simp, by omega⟩
 
 /-! ## one compression in either mode -/
 
@@ -237,20 +275,140 @@ theorem core_spec (hashOf : Array UInt8 → Bool → Nat → Nat) (S : XState) (
         rw [Array.length_toList]
         omega
 
-theorem compress_spec (hashOf : Array UInt8 → Bool → Nat → Nat) (S : XState) (addr : Nat) (data : Array UInt8) (acceleration : Int) (cap : Nat) (hJ : JX S) :
+/-- what a compression leaves alone: the attached dictionary stream; the index only grows; without the prefix mode an empty block leaves no dictionary -/
+theorem core_frame (hashOf : Array UInt8 → Bool → Nat → Nat) (S : XState) (contig : Bool) (addr : Nat) (data : Array UInt8) (acceleration : Int) (cap : Nat) :
+    (core hashOf S contig addr data acceleration cap).1.dctx = S.dctx ∧ S.currentOffset ≤ (core hashOf S contig addr data acceleration cap).1.currentOffset ∧
+    (contig = false → data.size = 0 → (core hashOf S contig addr data acceleration cap).1.dict.size = 0) := by
+  unfold core
+  dsimp only
+  by_cases h0 : data.size = 0
+  · rw [if_pos h0]
+    cases contig with
+    | true => exact ⟨rfl, Nat.le_refl _, fun h => by cases h⟩
+    | false => exact ⟨rfl, Nat.le_refl _, fun _ _ => rfl⟩
+  rw [if_neg h0]
+  by_cases hmax : data.size > LZ4V.Gen.LZ4_MAX_INPUT_SIZE
+  · rw [if_pos hmax]; exact ⟨rfl, Nat.le_refl _, fun _ h => absurd h h0⟩
+  rw [if_neg hmax]
+  by_cases hmin : data.size < LZ4V.Gen.LZ4_minLength
+  · rw [if_pos hmin]; exact ⟨rfl, Nat.le_add_right _ _, fun _ h => absurd h h0⟩
+  rw [if_neg hmin]
+  generalize runR _ _ _ _ _ = r
+  obtain ⟨ro, rtbl⟩ := r
+  cases ro with
+  | none => exact ⟨rfl, Nat.le_add_right _ _, fun _ h => absurd h h0⟩
+  | some v => obtain ⟨l, st⟩ := v; exact ⟨rfl, Nat.le_add_right _ _, fun _ h => absurd h h0⟩
+
+/-! ## an attached dictionary stream -/
+
+structure DOK (D : DCtx) : Prop where
+  tbl : ∀ i, D.tbl.getD i 0 ≤ D.currentOffset
+  ds  : D.dict.size ≤ D.currentOffset
+
+theorem range_map_getD (n : Nat) (f : Nat → Nat) (i : Nat) : ((Array.range n).map f).getD i 0 = if i < n then f i else 0 := by
+  rw [Array.getD_eq_getD_getElem?, Array.getElem?_map, Array.getElem?_range]
+  split <;> simp
+
+theorem mergedTbl_le (own dt : Array Nat) (startIndex delta B : Nat) (h1 : ∀ i, own.getD i 0 ≤ B) (h2 : ∀ i, dt.getD i 0 + delta ≤ B) :
+    ∀ i, (mergedTbl own dt startIndex delta).getD i 0 ≤ B := by
+  intro i
+  unfold mergedTbl
+  rw [range_map_getD]
+  by_cases hi : i < own.size
+  · rw [if_pos hi]
+    by_cases hc : own.getD i 0 < startIndex
+    · rw [if_pos hc]; exact h2 i
+    · rw [if_neg hc]; exact h1 i
+  · rw [if_neg hi]; exact Nat.zero_le _
+
+theorem restoreTbl_le (own0 final : Array Nat) (startIndex B : Nat) (h1 : ∀ i, own0.getD i 0 ≤ B) (h2 : ∀ i, final.getD i 0 ≤ B) :
+    ∀ i, (restoreTbl own0 final startIndex).getD i 0 ≤ B := by
+  intro i
+  unfold restoreTbl
+  rw [range_map_getD]
+  by_cases hi : i < own0.size
+  · rw [if_pos hi]
+    by_cases hc : final.getD i 0 < startIndex
+    · rw [if_pos hc]; exact h1 i
+    · rw [if_neg hc]; exact h2 i
+  · rw [if_neg hi]; exact Nat.zero_le _
+
+/-- where the history used by a compression comes from: the stream's own dictionary, or the dictionary of the attached stream -/
+def Src (S : XState) (d : List UInt8) : Prop := IsTail d S.dict.toList ∨ ∃ D, S.dctx = some D ∧ IsTail d D.dict.toList
+
+theorem compress_spec (hashOf : Array UInt8 → Bool → Nat → Nat) (S : XState) (addr : Nat) (data : Array UInt8) (acceleration : Int) (cap : Nat) (hJ : JX S)
+    (hD : ∀ D, S.dctx = some D → DOK D ∧ S.dict.size = 0) :
     JX (compress hashOf S addr data acceleration cap).1 ∧
+    (∀ D', (compress hashOf S addr data acceleration cap).1.dctx = some D' → S.dctx = some D' ∧ data.size = 0 ∧ (compress hashOf S addr data acceleration cap).1.dict.size = 0) ∧
     (∀ blk, (compress hashOf S addr data acceleration cap).2 = some blk →
-      IsTail (compress hashOf S addr data acceleration cap).1.dict.toList (S.dict.toList ++ data.toList) ∧
-      ∃ d, IsTail d S.dict.toList ∧ Parsed d blk data.toList) := by
+      ∃ d, Src S d ∧ Parsed d blk data.toList ∧ IsTail (compress hashOf S addr data acceleration cap).1.dict.toList (d ++ data.toList)) := by
   obtain ⟨a1, a2⟩ := adjust_spec S addr data.size hJ
-  obtain ⟨c1, c2⟩ := core_spec hashOf (adjust S addr data.size).1 (adjust S addr data.size).2 addr data acceleration cap a1
+  have ad := adjust_dctx S addr data.size
   unfold compress
   dsimp only
-  refine ⟨c1, fun blk h => ?_⟩
-  obtain ⟨t, p⟩ := c2 blk h
-  exact ⟨t.trans (a2.append _), _, a2, p⟩
-
-/-! ## the other operations -/
+  cases hdc : S.dctx with
+  | none =>
+    -- nothing attached
+    rw [ad, hdc]
+    have hm : (if (adjust S addr data.size).2 = true then (none : Option DCtx) else none) = none := by split <;> rfl
+    rw [hm]
+    dsimp only
+    obtain ⟨c1, c2⟩ := core_spec hashOf (adjust S addr data.size).1 (adjust S addr data.size).2 addr data acceleration cap a1
+    obtain ⟨f1, _, _⟩ := core_frame hashOf (adjust S addr data.size).1 (adjust S addr data.size).2 addr data acceleration cap
+    refine ⟨c1, ?_, ?_⟩
+    · intro D' h; rw [f1, ad, hdc] at h; cases h
+    · intro blk h
+      obtain ⟨t, p⟩ := c2 blk h
+      exact ⟨_, Or.inl a2, p, t⟩
+  | some D =>
+    obtain ⟨dok, hs0⟩ := hD D hdc
+    obtain ⟨g1, g2⟩ := adjust_attached S addr data.size D hdc hs0
+    rw [ad, hdc, g1]
+    simp only [Bool.false_eq_true, ↓reduceIte]
+    by_cases h0 : data.size = 0
+    · rw [if_pos h0]
+      obtain ⟨c1, c2⟩ := core_spec hashOf (adjust S addr data.size).1 false addr data acceleration cap a1
+      obtain ⟨f1, _, f3⟩ := core_frame hashOf (adjust S addr data.size).1 false addr data acceleration cap
+      refine ⟨c1, ?_, ?_⟩
+      · intro D' h; rw [f1, ad, hdc] at h; exact ⟨h, h0, f3 rfl h0⟩
+      · intro blk h
+        obtain ⟨t, p⟩ := c2 blk h
+        exact ⟨_, Or.inl a2, p, t⟩
+    rw [if_neg h0]
+    by_cases hbig : data.size > LZ4V.Gen.KB4
+    · -- the dictionary stream is copied over the working stream
+      rw [if_pos hbig]
+      have jd : JX { tbl := D.tbl, currentOffset := D.currentOffset, dict := D.dict, dictAddr := D.dictAddr, used := true, dctx := none } := ⟨dok.tbl, dok.ds⟩
+      obtain ⟨c1, c2⟩ := core_spec hashOf _ false addr data acceleration cap jd
+      obtain ⟨f1, _, _⟩ := core_frame hashOf { tbl := D.tbl, currentOffset := D.currentOffset, dict := D.dict, dictAddr := D.dictAddr, used := true, dctx := none } false addr data acceleration cap
+      refine ⟨c1, ?_, ?_⟩
+      · intro D' h; rw [f1] at h; cases h
+      · intro blk h
+        obtain ⟨t, p⟩ := c2 blk h
+        exact ⟨_, Or.inr ⟨D, hdc, IsTail.refl _⟩, p, t⟩
+    rw [if_neg hbig]
+    by_cases hwrap : (adjust S addr data.size).1.currentOffset < D.currentOffset
+    · rw [if_pos hwrap]
+      refine ⟨⟨a1.tbl, a1.ds⟩, ?_, ?_⟩
+      · intro D' h; cases h
+      · intro blk h; cases h
+    rw [if_neg hwrap]
+    -- two tables
+    generalize hT : (adjust S addr data.size).1 = T at a1 a2 g2 hwrap
+    have jm : JX { tbl := mergedTbl T.tbl D.tbl T.currentOffset (T.currentOffset - D.currentOffset), currentOffset := T.currentOffset, dict := D.dict,
+                   dictAddr := D.dictAddr, used := T.used, dctx := some D } := by
+      refine ⟨mergedTbl_le _ _ _ _ _ a1.tbl (fun i => ?_), ?_⟩
+      · have := dok.tbl i; dsimp only; omega
+      · have := dok.ds; dsimp only; omega
+    obtain ⟨c1, c2⟩ := core_spec hashOf _ false addr data acceleration cap jm
+    obtain ⟨f1, f2, _⟩ := core_frame hashOf { tbl := mergedTbl T.tbl D.tbl T.currentOffset (T.currentOffset - D.currentOffset), currentOffset := T.currentOffset, dict := D.dict, dictAddr := D.dictAddr, used := T.used, dctx := some D } false addr data acceleration cap
+    dsimp only at f2
+    refine ⟨⟨?_, c1.ds⟩, ?_, ?_⟩
+    · exact restoreTbl_le _ _ _ _ (fun i => Nat.le_trans (a1.tbl i) f2) c1.tbl
+    · intro D' h; cases h
+    · intro blk h
+      obtain ⟨t, p⟩ := c2 blk h
+      exact ⟨_, Or.inr ⟨D, hdc, IsTail.refl _⟩, p, t⟩
 
 theorem saveDict_spec (S : XState) (addr k : Nat) (hJ : JX S) : JX (saveDict S addr k).1 ∧ IsTail (saveDict S addr k).1.dict.toList S.dict.toList := by
   unfold saveDict
@@ -328,58 +486,129 @@ theorem reset_spec (S : XState) (hJ : JX S) : JX (reset S) ∧ (reset S).dict = 
 
 /-! ## a whole life -/
 
-/-- the declared history of the stream: what a decoder that followed the stream has seen since the last reset / dictionary load -/
+/-- the declared history of the stream: what a decoder that followed the stream has seen since the last reset / dictionary load / attachment -/
 def hist (H : List UInt8) : Op → List UInt8
   | .compress _ data _ _ => H ++ data.toList
   | .saveDict _ _ => H
   | .loadDict _ d _ => d.toList
   | .reset => []
+  | .attach _ d _ => d.toList
 
 def histAt (H : List UInt8) (ops : List Op) (k : Nat) : List UInt8 := (ops.take k).foldl hist H
 
-/-- one operation keeps `JX` and keeps the dictionary a tail of the declared history (for a compression: when it succeeds) -/
-theorem step_spec (hashOf : Array UInt8 → Bool → Nat → Nat) (S : XState) (H : List UInt8) (op : Op) (hJ : JX S) (hT : IsTail S.dict.toList H) :
-    JX (step hashOf S op).1 ∧ ((step hashOf S op).2 ≠ .block none → IsTail (step hashOf S op).1.dict.toList (hist H op)) := by
+/-- the invariant of a life: `JX`; the stream's own dictionary is a tail of the declared history `H`; an attached dictionary stream is well formed, its
+    dictionary is a tail of `H` too, and while it is attached the stream has no dictionary of its own -/
+structure Inv (S : XState) (H : List UInt8) : Prop where
+  jx : JX S
+  tail : IsTail S.dict.toList H
+  dctx : ∀ D, S.dctx = some D → DOK D ∧ S.dict.size = 0 ∧ IsTail D.dict.toList H
+
+theorem Inv_init : Inv {} [] := ⟨JX_init, IsTail.refl _, fun D h => by cases h⟩
+
+theorem saveDict_frame (S : XState) (addr k : Nat) : (saveDict S addr k).1.dctx = S.dctx ∧ (saveDict S addr k).1.dict.size ≤ S.dict.size := by
+  unfold saveDict
+  exact ⟨rfl, lastN_size _ _⟩
+
+theorem size_zero_nil (a : Array UInt8) (h : a.size = 0) : a.toList = [] := by
+  apply List.eq_nil_of_length_eq_zero; rw [Array.length_toList]; exact h
+
+/-- one operation keeps the invariant (for a compression: when it succeeds) -/
+theorem step_spec (hashOf : Array UInt8 → Bool → Nat → Nat) (S : XState) (H : List UInt8) (op : Op) (hI : Inv S H) :
+    (step hashOf S op).2 ≠ .block none → Inv (step hashOf S op).1 (hist H op) := by
+  obtain ⟨hJ, hT, hD⟩ := hI
   cases op with
   | compress addr data acc cap =>
-    obtain ⟨c1, c2⟩ := compress_spec hashOf S addr data acc cap hJ
-    refine ⟨c1, ?_⟩
+    obtain ⟨c1, c2, c3⟩ := compress_spec hashOf S addr data acc cap hJ (fun D h => ⟨(hD D h).1, (hD D h).2.1⟩)
     intro hne
-    show IsTail (compress hashOf S addr data acc cap).1.dict.toList (H ++ data.toList)
+    show Inv (compress hashOf S addr data acc cap).1 (H ++ data.toList)
     cases hb : (compress hashOf S addr data acc cap).2 with
     | none => exact absurd (by show Out.block (compress hashOf S addr data acc cap).2 = Out.block none; rw [hb]) hne
-    | some blk => exact (c2 blk hb).1.trans (hT.append _)
+    | some blk =>
+      obtain ⟨d, hsrc, _, ht⟩ := c3 blk hb
+      have hdH : IsTail d H := by
+        rcases hsrc with h | ⟨D, hDc, h⟩
+        · exact h.trans hT
+        · exact h.trans (hD D hDc).2.2
+      refine ⟨c1, ht.trans (hdH.append _), ?_⟩
+      intro D' h'
+      obtain ⟨e1, e2, e3⟩ := c2 D' h'
+      have hd0 : data.toList = [] := size_zero_nil data e2
+      rw [hd0, List.append_nil]
+      exact ⟨(hD D' e1).1, e3, (hD D' e1).2.2⟩
   | saveDict addr k =>
     obtain ⟨s1, s2⟩ := saveDict_spec S addr k hJ
-    exact ⟨s1, fun _ => s2.trans hT⟩
+    obtain ⟨f1, f2⟩ := saveDict_frame S addr k
+    intro _
+    refine ⟨s1, s2.trans hT, ?_⟩
+    intro D h
+    have h' : S.dctx = some D := by rw [← f1]; exact h
+    have := (hD D h').2.1
+    exact ⟨(hD D h').1, by show (saveDict S addr k).1.dict.size = 0; omega, (hD D h').2.2⟩
   | loadDict addr d slow =>
     obtain ⟨l1, l2⟩ := loadDict_spec hashOf addr d slow
-    exact ⟨l1, fun _ => l2⟩
+    intro _
+    refine ⟨l1, l2, ?_⟩
+    intro D h
+    have : (loadDict hashOf addr d slow).1.dctx = none := by unfold loadDict; dsimp only; split <;> rfl
+    rw [show (step hashOf S (.loadDict addr d slow)).1 = (loadDict hashOf addr d slow).1 from rfl, this] at h
+    cases h
   | reset =>
     obtain ⟨r1, r2⟩ := reset_spec S hJ
-    refine ⟨r1, fun _ => ?_⟩
-    show IsTail (reset S).dict.toList []
-    rw [r2]; exact IsTail.refl _
+    intro _
+    refine ⟨r1, ?_, ?_⟩
+    · show IsTail (reset S).dict.toList []
+      rw [r2]; exact IsTail.refl _
+    · intro D h
+      have : (reset S).dctx = none := rfl
+      rw [show (step hashOf S .reset).1 = reset S from rfl, this] at h
+      cases h
+  | attach addr d slow =>
+    obtain ⟨r1, r2⟩ := reset_spec S hJ
+    obtain ⟨l1, l2⟩ := loadDict_spec hashOf addr d slow
+    intro _
+    have k64 : LZ4V.Gen.KB64 = 65536 := rfl
+    refine ⟨⟨?_, ?_⟩, ?_, ?_⟩
+    · intro i
+      have := r1.tbl i
+      show (reset S).tbl.getD i 0 ≤ (if (reset S).currentOffset = 0 then LZ4V.Gen.KB64 else (reset S).currentOffset)
+      split <;> omega
+    · show (reset S).dict.size ≤ _
+      rw [r2]; exact Nat.zero_le _
+    · show IsTail (reset S).dict.toList d.toList
+      rw [r2]; exact IsTail.nil _
+    · intro D h
+      have hstep : (step hashOf S (.attach addr d slow)).1.dctx =
+          (if (loadDict hashOf addr d slow).1.dict.size = 0 then none
+           else some { tbl := (loadDict hashOf addr d slow).1.tbl, currentOffset := (loadDict hashOf addr d slow).1.currentOffset,
+                       dict := (loadDict hashOf addr d slow).1.dict, dictAddr := (loadDict hashOf addr d slow).1.dictAddr }) := rfl
+      rw [hstep] at h
+      split at h
+      · cases h
+      · simp only [Option.some.injEq] at h
+        subst h
+        refine ⟨⟨l1.tbl, l1.ds⟩, ?_, l2⟩
+        show (reset S).dict.size = 0
+        rw [r2]; rfl
 
 /-- **any life of a stream**: for every sequence of operations (compressions placed anywhere — after the dictionary, elsewhere, over the start of
-    the dictionary —, dictionary saves of any size to any place, dictionary loads, fast resets; any sizes, capacities, accelerations, any hash
-    function; any state satisfying `JX` whose dictionary is a tail of `H`), a block returned by the `k`-th operation is a verified parse of its
+    the dictionary —, dictionary saves of any size to any place, dictionary loads, attached dictionary streams, fast resets; any sizes, capacities,
+    accelerations, any hash function; any state satisfying the invariant), a block returned by the `k`-th operation is a verified parse of its
     source against every tail `w` of the history at that point that is the whole history or at least 65535 bytes long -/
-theorem run_parsed (hashOf : Array UInt8 → Bool → Nat → Nat) : ∀ (ops : List Op) (S : XState) (H : List UInt8), JX S → IsTail S.dict.toList H →
+theorem run_parsed (hashOf : Array UInt8 → Bool → Nat → Nat) : ∀ (ops : List Op) (S : XState) (H : List UInt8), Inv S H →
     ∀ k addr data acc cap blk, ops[k]? = some (.compress addr data acc cap) → (run hashOf S ops)[k]? = some (.block (some blk)) →
     ∀ pre w, histAt H ops k = pre ++ w → (pre = [] ∨ 65535 ≤ w.length) → Parsed w blk data.toList := by
   intro ops
   induction ops with
-  | nil => intro S H _ _ k addr data acc cap blk h; simp at h
+  | nil => intro S H _ k addr data acc cap blk h; simp at h
   | cons op rest ih =>
-    intro S H hJ hT k addr data acc cap blk hop hrun pre w hw hlen
-    obtain ⟨s1, s2⟩ := step_spec hashOf S H op hJ hT
+    intro S H hI k addr data acc cap blk hop hrun pre w hw hlen
+    have s2 := step_spec hashOf S H op hI
     cases k with
     | zero =>
       simp only [List.getElem?_cons_zero, Option.some.injEq] at hop
       subst hop
       simp only [histAt, List.take_zero, List.foldl_nil] at hw
-      obtain ⟨c1, c2⟩ := compress_spec hashOf S addr data acc cap hJ
+      obtain ⟨c1, c2, c3⟩ := compress_spec hashOf S addr data acc cap hI.jx (fun D h => ⟨(hI.dctx D h).1, (hI.dctx D h).2.1⟩)
       have hb : (compress hashOf S addr data acc cap).2 = some blk := by
         unfold run at hrun
         simp only [step] at hrun
@@ -389,28 +618,32 @@ theorem run_parsed (hashOf : Array UInt8 → Bool → Nat → Nat) : ∀ (ops : 
           rw [hc] at hrun
           simp only [List.getElem?_cons_zero, Option.some.injEq, Out.block.injEq] at hrun
           rw [hrun]
-      obtain ⟨_, d, hd, hp⟩ := c2 blk hb
-      obtain ⟨p1, hp1⟩ := hd.trans hT
+      obtain ⟨d, hsrc, hp, _⟩ := c3 blk hb
+      have hdH : IsTail d H := by
+        rcases hsrc with h | ⟨D, hDc, h⟩
+        · exact h.trans hI.tail
+        · exact h.trans (hI.dctx D hDc).2.2
+      obtain ⟨p1, hp1⟩ := hdH
       exact hp.of_tails (p := p1) (by rw [← hp1]; exact hw) hlen
     | succ k' =>
       simp only [List.getElem?_cons_succ] at hop
       unfold run at hrun
       cases hst : step hashOf S op with
       | mk S' o =>
-        rw [hst] at hrun s1 s2
-        dsimp only at s1 s2
+        rw [hst] at hrun s2
+        dsimp only at s2
         cases o with
         | block b =>
           cases b with
           | none => simp at hrun
           | some b0 =>
             simp only [List.getElem?_cons_succ] at hrun
-            exact ih S' (hist H op) s1 (s2 (by simp)) k' addr data acc cap blk hop hrun pre w (by simpa [histAt] using hw) hlen
+            exact ih S' (hist H op) (s2 (by simp)) k' addr data acc cap blk hop hrun pre w (by simpa [histAt] using hw) hlen
         | size n =>
           simp only [List.getElem?_cons_succ] at hrun
-          exact ih S' (hist H op) s1 (s2 (by simp)) k' addr data acc cap blk hop hrun pre w (by simpa [histAt] using hw) hlen
+          exact ih S' (hist H op) (s2 (by simp)) k' addr data acc cap blk hop hrun pre w (by simpa [histAt] using hw) hlen
         | unit =>
           simp only [List.getElem?_cons_succ] at hrun
-          exact ih S' (hist H op) s1 (s2 (by simp)) k' addr data acc cap blk hop hrun pre w (by simpa [histAt] using hw) hlen
+          exact ih S' (hist H op) (s2 (by simp)) k' addr data acc cap blk hop hrun pre w (by simpa [histAt] using hw) hlen
 
 end LZ4V.Model.FastX
